@@ -130,7 +130,7 @@ pub fn spec(id: &str) -> Option<HistorySpec> {
                 thorough_cases: 40_000,
                 thorough_max_ops: 300,
                 termination: false,
-            rule: "generated histories with iterators/snapshots pinning old versions across compactions; any read failing on a missing file is a violation; before every close, after every reopen and at the end everything is released, one memtable flush gives the database its reclamation opportunity, background work quiesces and the directory listing must be exactly CURRENT, the current manifest, the active WAL and the tables of the current version. Second part (crash images, C02's engine): every journal prefix of generated write workloads is recovered; after recovery and quiescence the directory must again be exact (orphan tables, temp files and superseded manifests/WALs left by the crash are reclaimed), and if a recovery fails but succeeds once the WAL/table files removed before the crash are put back, a file that crash recovery still needed had been deleted. The crash part checks the directory right after open + quiescence, before anything is read (leftovers of the crash are reclaimed by the open itself), and again after the reads and one flush. Third part: transient failures of read-side filesystem calls (open-for-read, read, read_from, len, size) at sampled positions of generated workloads; afterwards, while the database is healthy, a flush and quiescence must leave the directory exact (a failed read must not leave a version pinned; if a version is still linked after everything was released a full compaction makes its files obsolete first). Non-trivial = a version was still pinned when the check started, or a trivial move happened in the case (crash part: crash point strictly inside an API call or background work; fault part: the armed read failed); distinct by case hash / (workload hash, position)",
+            rule: "generated histories with iterators/snapshots pinning old versions across compactions; any read failing on a missing file is a violation; before every close, after every reopen and at the end everything is released, one memtable flush gives the database its reclamation opportunity, background work quiesces and the directory listing must be exactly CURRENT, the current manifest, the active WAL and the tables of the current version. Second part (crash images, C02's engine): every journal prefix of generated write workloads is recovered; after recovery and quiescence the directory must again be exact (orphan tables, temp files and superseded manifests/WALs left by the crash are reclaimed), and if a recovery fails but succeeds once the WAL/table files removed before the crash are put back, a file that crash recovery still needed had been deleted. The crash part checks the directory right after open + quiescence, before anything is read (leftovers of the crash are reclaimed by the open itself), and again after the reads and one flush. Third part: transient failures of read-side filesystem calls (open-for-read, read, read_from, len, size) at sampled positions of generated workloads shaped so that reads overlap background work (512/700-byte memtable, a get of another key after every write, and a get that has just released the database mutex waits while the background thread is busy until a version has been installed or 4 ms have passed, so that the version it pinned is usually no longer current when it fails); afterwards, while the database is healthy, a flush and quiescence must leave the directory exact (a failed read must not leave a version pinned; if a version is still linked after everything was released a full compaction makes its files obsolete first). Non-trivial = a version was still pinned when the check started, or a trivial move happened in the case (crash part: crash point strictly inside an API call or background work; fault part: the armed read failed); distinct by case hash / (workload hash, position)",
             })
         }
         "C09" => {
